@@ -1,5 +1,29 @@
+//! mon_const: C16 (every shipped configuration is internally consistent) and C20 (compile-time
+//! literals denote the number that is written).
 use monitor::*;
+use std::time::Instant;
+
+mod adapt;
+mod c16;
+mod c20;
+mod chk;
+mod curves;
+mod fields;
+mod h2c;
+#[rustfmt::skip]
+pub mod literals_gen;
+mod ora;
+mod pairings;
+mod towers;
+
 fn main() {
     let args = Args::parse();
-    panic!("mon_const does not serve property {} yet", args.prop);
+    let t0 = Instant::now();
+    let (items, rule): (Vec<Item>, &str) = match args.prop.as_str() {
+        "C16" => (c16::items(&args), c16::RULE),
+        "C20" => (c20::items(&args), c20::RULE),
+        p => panic!("mon_const does not serve property {p}"),
+    };
+    let rep = run_items(&args, items);
+    finish(&args, "mon_const", rule, rep, t0)
 }
